@@ -32,6 +32,7 @@ type genType struct {
 	Required  []string // proto2 required fields (struct tag "...,req,...")
 	ReqMsg    map[string]bool // required fields of message type
 	Zero      map[string]string // Go zero literal per schema field
+	RepNum    map[string][2]string // repeated numeric fields: wire kind from the struct tag (varint, zigzag32, zigzag64, fixed32, fixed64) and field number
 	IsIface   map[string]bool   // oneof fields (interface typed)
 	MapOfMsg  map[string]bool   // maps whose values are messages (pointers)
 	SetCond   map[string]string // Go condition "field %s holds a set value" (presence as the reference runtime sees it)
@@ -210,6 +211,20 @@ func scanGenTypes(files map[string][]byte) (string, []*genType, error) {
 				}
 				if id, ok := f.Type.(*ast.Ident); ok && strings.HasPrefix(id.Name, "is") {
 					g.IsIface[fn.Name] = true
+				}
+				if _, ok := f.Type.(*ast.ArrayType); ok && strings.Contains(tag, ",rep,") {
+					if i := strings.Index(tag, "protobuf:\""); i >= 0 {
+						parts := strings.Split(tag[i+10:], ",")
+						if len(parts) >= 2 {
+							switch parts[0] {
+							case "varint", "zigzag32", "zigzag64", "fixed32", "fixed64":
+								if g.RepNum == nil {
+									g.RepNum = map[string][2]string{}
+								}
+								g.RepNum[fn.Name] = [2]string{parts[0], parts[1]}
+							}
+						}
+					}
 				}
 				if mt, ok := f.Type.(*ast.MapType); ok {
 					if _, ok := mt.Value.(*ast.StarExpr); ok {
@@ -671,6 +686,72 @@ func lemma_c08_%[1]s(m *%[1]s, p []byte) {
 `, t.Name)
 		fmt.Fprintf(&c, "\n//@ func lemma_c08_%s(m *%s, p []byte)\n//@   harness\n//@   inlines Unmarshal\n//@   cuts\n//@   outer %d\n//@   bounded %d inputs with at most %d top-level fields (arbitrary bytes otherwise); the destination arbitrary\n", t.Name, t.Name, outer, unmarshalFields, outer)
 
+		// C06 (wire variants of repeated scalars): one element unpacked, and a packed run of one
+		// element, are both accepted and yield one element
+		for _, f := range t.Fields {
+			rn, ok := t.RepNum[f]
+			if !ok {
+				continue
+			}
+			var num uint64
+			fmt.Sscan(rn[1], &num)
+			ewt, esz := 0, 1 // element wire type and size in bytes (varint: one byte below 0x80)
+			switch rn[0] {
+			case "fixed32":
+				ewt, esz = 5, 4
+			case "fixed64":
+				ewt, esz = 1, 8
+			}
+			kb := func(wt int) []byte {
+				k := num<<3 | uint64(wt)
+				var out []byte
+				for k >= 0x80 {
+					out = append(out, byte(k)|0x80)
+					k >>= 7
+				}
+				return append(out, byte(k))
+			}
+			lit := func(key []byte, lenByte int) string {
+				var parts []string
+				for _, b := range key {
+					parts = append(parts, fmt.Sprintf("0x%02x", b))
+				}
+				if lenByte >= 0 {
+					parts = append(parts, fmt.Sprint(lenByte))
+				}
+				for i := 0; i < esz; i++ {
+					parts = append(parts, fmt.Sprintf("b%d", i))
+				}
+				return "[]byte{" + strings.Join(parts, ", ") + "}"
+			}
+			params := ""
+			for i := 0; i < esz; i++ {
+				params += fmt.Sprintf(", b%d", i)
+			}
+			params = strings.TrimPrefix(params, ", ") + " byte"
+			small := ""
+			if ewt == 0 {
+				small = "\tgocv_assume(b0 < 0x80) // a one-byte varint\n"
+			}
+			fmt.Fprintf(&h, `
+func lemma_c06u_%[1]s_%[2]s(m *%[1]s, %[3]s) {
+	gocv_assume(m != nil)
+%[4]s	p := %[5]s // key of (%[6]s, element wire type %[7]d), then one element
+	_ = m.Unmarshal(p)
+	gocv_assert(len(m.%[2]s) == 1, "unpacked-element-accepted")
+}
+`, t.Name, f, params, small, lit(kb(ewt), -1), rn[1], ewt)
+			fmt.Fprintf(&c, "\n//@ func lemma_c06u_%s_%s(m *%s, %s)\n//@   harness\n//@   inlines Unmarshal\n//@   cuts\n//@   outer 1\n//@   bounded %d the input is exactly one unpacked element of repeated field %s (a one-byte varint or any fixed-width value)\n", t.Name, f, t.Name, params, unmarshalFields, f)
+			fmt.Fprintf(&h, `
+func lemma_c06p_%[1]s_%[2]s(m *%[1]s, %[3]s) {
+	gocv_assume(m != nil)
+%[4]s	p := %[5]s // key of (%[6]s, length-delimited), length %[7]d, one element
+	_ = m.Unmarshal(p)
+	gocv_assert(len(m.%[2]s) == 1, "packed-run-accepted")
+}
+`, t.Name, f, params, small, lit(kb(2), esz), rn[1], esz)
+			fmt.Fprintf(&c, "\n//@ func lemma_c06p_%s_%s(m *%s, %s)\n//@   harness\n//@   inlines Unmarshal, DecodePackedBool, DecodePackedInt32, DecodePackedInt64, DecodePackedUint32, DecodePackedUint64, DecodePackedSint32, DecodePackedSint64, DecodePackedFixed32, DecodePackedFixed64, DecodePackedFloat32, DecodePackedFloat64\n//@   cuts\n//@   outer 1\n//@   bounded %d the input is exactly one packed run holding one element of repeated field %s\n", t.Name, f, t.Name, params, unmarshalFields, f)
+		}
 		// C17, decode direction
 		if len(t.Required) > 0 {
 			var as strings.Builder
